@@ -49,6 +49,16 @@ CHECKS = {
         "trusts vf/registry.py (transcription of the registries; five tool-specific codes marked) and vf/refenc.py for the decode direction",
         "DESIGN.md section 5 / C08",
     ),
+    "C03": (
+        "exploration",
+        "Hypothesis-generated envelopes (optionally signed/severed/payload-extracted by the tool) through five parse->create routes, compared member-wise with an independent CBOR reader; second oracle re-encodes the shown description with the reference encoder",
+        "For generated envelopes in the image of create and their images under sign, sever, payload_extract and cache extraction, "
+        "create(parse(E)) is compared with E through the in-memory route and the YAML/JSON file routes with and without hierarchy "
+        "expansion (CLI-level mains): integer-keyed members byte-identical and in the same order, integrated members equal as a "
+        "multiset; additionally refenc(parse(E)) == E. Known finding F4a-d is routed by input predicates and probed on every run.",
+        "trusts vf/cborlite.py, vf/refenc.py; F4 predicates over-approximate only towards exclusion (hit rate in evidence)",
+        "DESIGN.md section 5 / C03",
+    ),
 }
 
 NOT_YET = "check under construction in this session; not claimed until its quick command is registered here"
